@@ -22,6 +22,7 @@ let run (line : string) : string list * bool list =
   let next () = match !ws with w :: r -> ws := r; w | [] -> failwith "short" in
   let nconn = ref 0 in
   let confirmed = ref [] in
+  let dead = ref [] in   (* private-broadcast connections the node has dropped (nothing to send, or an unexpected GETDATA) *)
   let out = ref [] and verdicts = ref [] in
   let emit x = out := x :: !out in
   let in_pool i = Model.find_entry (z_of_int i) !s.Model.r_pool <> None in
@@ -74,10 +75,12 @@ let run (line : string) : string list * bool list =
        let choice = int_of_string (hint ()) in
        let (pb', r) = Model.pb_pick max_send !pb (z_of_int id) (z_of_int id) (z_of_int !now) (z_of_int choice) in
        pb := pb';
+       (match r with None -> dead := id :: !dead | Some _ -> ());
        emit (string_of_int id ^ "=" ^ (match r with Some tx -> "1inv:" ^ sz tx | None -> "disc"))
      | "pget" ->
        let cid = z_of_string (next ()) in let i = z_of_string (next ()) in
-       let v = (match Model.pb_tx_for_node !pb cid with Some tx -> tx = i | None -> false) in
+       let v = (not (List.mem (int_of_z cid) !dead)) && (match Model.pb_tx_for_node !pb cid with Some tx -> tx = i | None -> false) in
+       if not v then dead := int_of_z cid :: !dead;
        verdicts := v :: !verdicts;
        emit (if v then "tx" else "disc")
      | o -> failwith ("bad op " ^ o))
